@@ -96,6 +96,8 @@ def e_Name(ctx, fr, path, node):
         yield path, fr.result
         return
     g = ctx.global_lookup(fr.mi, n, path)
+    if g is None and getattr(fr, "fallback_mi", None) is not None:
+        g = ctx.global_lookup(fr.fallback_mi, n, path)
     if g is not None:
         yield path, g
         return
@@ -255,6 +257,13 @@ def obj_attr(ctx, fr, path, o, attr, node=None):
         if ann is None:
             ann = ctx.extern_field_ann(ci, attr)
         groups.setdefault(("f", repr(ann)), (ann, []))[1].append(ci)
+    if ctx.spec_mode and len(groups) > 1:
+        # contract code is total on its stated domain: an attribute read in a spec is on an object that has it
+        keep = {k: g for k, g in groups.items() if not (k[0] == "f" and not any(ctx.class_has_attr(c, attr) for c in g[1]))}
+        if keep and len(keep) < len(groups):
+            cid0 = V.cls(t)
+            path.assume(z3.Or([cid0 == c.cid for _, cis in keep.values() for c in cis]), "spec attribute read is defined")
+            groups = keep
     if len(groups) == 1:
         (key, (what, _)), = groups.items()
         yield from _attr_case(ctx, fr, path, o, attr, key, what)
@@ -262,7 +271,7 @@ def obj_attr(ctx, fr, path, o, attr, node=None):
     cid = V.cls(t)
     for key, (what, cis) in groups.items():
         cond = z3.Or([cid == c.cid for c in cis])
-        if not ctx.feasible(path, cond):
+        if not ctx.feasible(path, cond) or ctx.decide(path, cond) is False:
             continue
         q = path.fork()
         q.pc.append(simp(cond))
